@@ -15,7 +15,7 @@
    "answers something other than true" includes non-termination of the real validator on
    cyclic damage (the model's OutOfFuel); the property restricts chain damage to acyclic
    chains.
-   OBLIGATIONS: C14_check_sound C14_damage_rejected_by_check C14_damage_rejected_by_detailed C14_detailed_sound C14_validate_is_detailed C14_try_ops_refuse_on_heap C14_try_ops_refuse_unchanged C14_chain_damage_rejected C14_chain_exact C14_nonvacuous C14_legacy_refuted *)
+   OBLIGATIONS: C14_check_sound C14_damage_rejected_by_check C14_damage_rejected_by_detailed C14_detailed_sound C14_validate_is_detailed C14_try_ops_refuse_on_heap C14_try_ops_refuse_unchanged C14_chain_damage_rejected C14_chain_exact C14_nonvacuous C14_legacy_refuted C14_check_total C14_damage_gives_false C14_damage_refused_unchanged C14_detailed_total C14_chain_damage_refused C14_orphan_rejected *)
 From BPT Require Import Common.Base Common.AMap Rust.Arena Rust.Tree Rust.Heap Rust.Readers Rust.Run
      Rust.InvDefs Rust.ValidDefs Rust.Damage Rust.ValidSound Rust.ChainExact.
 From Coq Require Import Permutation.
@@ -85,5 +85,50 @@ Definition C14_nonvacuous :=
    ex_dup_child, ex_trunc, ex_dangling, ex_free_leaf, ex_chain_cut, ex_orphan_leaf, ex_orphan_branch).
 
 From BPT Require Import Legacy.RustLegacy.
+From BPT Require Extra.RustExtra2.
+From BPT Require Extra.RustExtra.
 (* the validators as pinned accepted an empty non-root node (repaired in /repo) *)
 Definition C14_legacy_refuted := (d10_refuted, validator_empty_node_refuted).
+
+(* check_invariants answers true or false on every heap (or runs out of fuel on a cyclic graph): no panic *)
+Theorem C14_check_total : forall (V : Type) (h : heap V),
+  (exists r, check_invariants h = Ok r) \/ check_invariants h = OutOfFuel.
+Proof. exact RustExtra.check_total. Qed.
+
+(* the damage kinds make check_invariants return exactly false and the detailed validator exactly Err *)
+Theorem C14_damage_gives_false : forall (V : Type) (h : heap V) r isroot lo hi,
+  hreach h r isroot lo hi -> ~ node_ok h r isroot lo hi -> check_invariants h <> OutOfFuel ->
+  check_invariants h = Ok false /\ check_invariants_detailed h = Ok (Some E_TREE).
+Proof. exact RustExtra.damage_gives_false. Qed.
+
+(* ... and try_insert / try_remove refuse with the data-integrity error and return the SAME state *)
+Theorem C14_damage_refused_unchanged : forall (V : Type) (b : bstate V) r isroot lo hi k v z,
+  hreach (flatten b) r isroot lo hi -> ~ node_ok (flatten b) r isroot lo hi ->
+  check_invariants (flatten b) <> OutOfFuel ->
+  try_insert b k v = Ok (b, None, Some (DataIntegrity E_TREE)) /\
+  try_remove b z = Ok (b, None, Some (DataIntegrity E_TREE)).
+Proof. exact RustExtra.damage_refused_unchanged. Qed.
+
+Theorem C14_detailed_total : forall (V:Type) (h:heap V),
+  (exists r, check_invariants_detailed h = Ok r) \/ check_invariants_detailed h = OutOfFuel.
+Proof. exact RustExtra2.detailed_total. Qed.
+
+(* chain damage: the detailed validator returns an error and the try-operations refuse *)
+Theorem C14_chain_damage_refused : forall (V:Type) (h:heap V) tids fid cids k v z,
+  collect_leaf_ids h = Ok tids -> get_first_leaf_id h = Ok fid ->
+  chain_ids (S (S (length (store (hleaves h))))) h fid = Ok cids ->
+  (forall id l, In id tids -> get_leaf h id = Some l -> 2 <= lcap l) ->
+  cids <> tids -> check_invariants_detailed h <> OutOfFuel ->
+  exists e, check_invariants_detailed h = Ok (Some e) /\
+    hstep h (OTryInsert k v) = Some (UResOpt None (Some (DataIntegrity e))) /\
+    hstep h (OTryRemove z) = Some (URes None (Some (DataIntegrity e))).
+Proof. exact RustExtra2.chain_damage_refused. Qed.
+
+(* an allocated node unreachable from the root is rejected by the detailed validator *)
+Theorem C14_orphan_rejected : forall (V:Type) (h:heap V) tids bids,
+  collect_leaf_ids h = Ok tids -> collect_branch_ids h = Ok bids ->
+  (forall id l, In id tids -> get_leaf h id = Some l -> 2 <= lcap l) ->
+  ((exists id, a_contains (hleaves h) id = true /\ ~ In id tids) \/
+   (exists id, a_contains (hbranches h) id = true /\ ~ In id bids)) ->
+  check_invariants_detailed h <> Ok None.
+Proof. exact RustExtra2.orphan_rejected. Qed.
